@@ -1,11 +1,16 @@
 #!/bin/bash
-# seedtest.sh <seed-name> <prop> [<prop>...]: applies the seeded change to /repo, runs the quick checks, reverts.
+# seedtest.sh <seed-name> <prop> [<prop>...]: runs the quick checks against a scratch
+# worktree of /repo with the seeded change applied (VERIF_REPO), so that /repo itself
+# and anything else using it are not disturbed. Equivalent to `git -C /repo apply`,
+# run, `git -C /repo checkout -- .`.
 cd "$(dirname "$0")/.."
 name=$1; shift
-if ! git -C /repo diff --quiet; then echo "/repo has uncommitted changes"; exit 2; fi
-git -C /repo apply "$PWD/seeded/$name/patch.diff" || { echo "patch does not apply"; exit 2; }
+wt=/tmp/seedtest_wt_$$
+git -C /repo worktree add -f --detach $wt HEAD >/dev/null 2>&1 || { echo "cannot create worktree"; exit 2; }
+trap 'git -C /repo worktree remove --force '$wt' >/dev/null 2>&1' EXIT
+d=seeded/$name; [ -d "$d" ] || d=seeded/retired/$name
+git -C $wt apply "$PWD/$d/patch.diff" || { echo "$name: patch does not apply"; exit 2; }
 for p in "$@"; do
-  out=$(python3 check.py $p --tier quick 2>&1); rc=$?
+  out=$(VERIF_REPO=$wt python3 check.py $p --tier quick 2>&1); rc=$?
   echo "$name :: $p rc=$rc :: $(echo "$out" | grep -E "violation 1:|HARNESS" | head -1 | cut -c1-260)"
 done
-git -C /repo checkout -- .
